@@ -815,92 +815,112 @@ def run(ctx):
                           ['seconds', -1.75], ['seconds', 12345.678901], ['seconds', -12345.678901]]})
             emit({'kind': 'marshal', 't': now, 'tz': None, 'via': via})
 
-    # ---- seeded generation ------------------------------------------------------
+    # ---- seeded generation: in blocks with their own random stream, a worker only
+    # generates the blocks it owns ------------------------------------------------
     scale = ctx.pick(1, 20)
-    rn = ctx.rng('normalize')
-    for i in range(40000 * scale):
-        k = rn.randrange(10)
-        f = rand_fields(rn, 2, 9998) if rn.random() < 0.3 else rand_fields(rn)
-        if k == 0:
-            spec = None
-        elif k == 1:
-            spec = {'k': 'utc', 'impl': rn.choice(UTC_IMPLS)}
-        elif k <= 6 or not zones:
-            spec = rand_fixed(rn)
-        else:
-            spec = {'k': 'zone', 'name': rn.choice(zones), 'fold': rn.randrange(2)}
-            f = rand_fields(rn, 1850, 2100) if rn.random() < 0.8 else f
-        emit({'kind': 'norm', 't': f, 'tz': spec})
-    # random cases right at the range edges
-    for i in range(2000 * scale):
-        o = rand_fixed(rn)
-        edge = rn.choice([MIN_US, MAX_US])
-        e = rn.choice([-1, 0, 1, rn.randint(-US_DAY, US_DAY), rn.randint(-100, 100)])
-        f = from_us(edge + o['us'] + e)
-        if f is not None:
-            emit({'kind': 'norm', 't': f, 'tz': o})
-    ri = ctx.rng('iso')
-    for i in range(25000 * scale):
-        k = ri.randrange(10)
-        f = rand_fields(ri, 1, 9999) if ri.random() < 0.4 else rand_fields(ri)
-        if k <= 1:
-            spec = None
-        elif k == 2:
-            spec = {'k': 'utc', 'impl': ri.choice(UTC_IMPLS)}
-        elif k <= 7 or not zones:
-            spec = rand_fixed(ri, whole_minute=True)
-        else:
-            spec = {'k': 'zone', 'name': ri.choice(zones), 'fold': ri.randrange(2)}
-            if td_us(build(f, spec).utcoffset()) % US_MIN:
-                spec = rand_fixed(ri, whole_minute=True)     # LMT with seconds: isoformat is not ISO 8601
-        emit({'kind': 'iso', 't': f, 'tz': spec})
-    rm = ctx.rng('marshal')
-    for i in range(15000 * scale):
-        f = rand_fields(rm, 1, 9999) if rm.random() < 0.4 else rand_fields(rm)
-        spec = None if rm.random() < 0.4 else {'k': 'utc', 'impl': rm.choice(UTC_IMPLS)}
-        case = {'kind': 'marshal', 't': f, 'tz': spec, 'leap': rm.random() < 0.3}
-        if spec is None and rm.random() < 0.25:
-            case['via'] = rm.choice(VIAS)
-        emit(case)
-    rc = ctx.rng('clock')
-    for i in range(6000 * scale):
-        now = rand_fields(rc, 1902, 2500) if rc.random() < 0.85 else rand_fields(rc, 2, 9998)
-        ops = []
-        for j in range(rc.randint(1, 5)):
-            k = rc.randrange(8)
+    blk = 0
+
+    def blocks(stream, total, size=250):
+        nonlocal blk
+        for b in range(max(1, total // size)):
+            blk += 1
+            if ctx.mine(blk):
+                yield ctx.rng('%s/%d' % (stream, b)), size
+
+    def go(case):
+        ctx.sample(case['kind'] + ('/' + case['form'] if 'form' in case else ''), case)
+        evaluate(ctx, case)
+
+    for rn, n in blocks('normalize', 40000 * scale):
+        for i in range(n):
+            k = rn.randrange(10)
+            f = rand_fields(rn, 2, 9998) if rn.random() < 0.3 else rand_fields(rn)
             if k == 0:
-                ops.append(['seconds', rc.choice([0, 1, -1, 60, -60, 86400, 3600, rc.randint(-10 ** 7, 10 ** 7)])])
+                spec = None
             elif k == 1:
-                ops.append(['seconds', rc.choice([0.5, -0.5, 0.25, 1.5, -1.5, 0.015625, 0.984375, -0.984375])])
-            elif k == 2:
-                ops.append(['seconds', rc.randint(-64 * 10 ** 5, 64 * 10 ** 5) / 64])
-            elif k == 3:      # decimal fractions at microsecond resolution
-                ops.append(['seconds', rc.randint(-10 ** 11, 10 ** 11) / 10 ** 6])
-            elif k == 4:
-                ops.append(['seconds', rc.choice([0.000001, -0.000001, 0.999999, -0.999999, 0.1, -0.1, 0.000002])])
-            elif k == 5:
-                ops.append(['delta', 0, 0, rc.choice([1, -1, 999999, -999999, rc.randint(-10 ** 12, 10 ** 12)])])
-            elif k == 6:
-                ops.append(['delta', rc.randint(-400, 400), rc.randint(0, 86399), rc.randrange(US)])
+                spec = {'k': 'utc', 'impl': rn.choice(UTC_IMPLS)}
+            elif k <= 6 or not zones:
+                spec = rand_fixed(rn)
             else:
-                ops.append(['delta', 0, rc.randint(-10 ** 6, 10 ** 6), 0])
-        emit({'kind': 'clock', 'now': now, 'via': rc.choice(VIAS), 'ops': ops})
-    rp = ctx.rng('compare')
-    for i in range(16000 * scale):
-        f = rand_fields(rp) if rp.random() < 0.9 else rand_fields(rp, 40, 9900)
-        spec, forms = tz_for_compare(rp, zones, f)
-        s = rand_seconds(rp)
-        far = rp.choice([rp.randint(2, 10 ** 9), -rp.randint(2, 10 ** 9), rp.randint(2, 2000), -rp.randint(2, 2000)])
-        emit({'kind': 'cmp', 't': f, 'tz': spec, 'form': rp.choice(forms), 'seconds': s,
-              'deltas': [-1, 0, 1, far], 'fns': allf, 'via': rp.choice(VIAS)})
+                spec = {'k': 'zone', 'name': rn.choice(zones), 'fold': rn.randrange(2)}
+                f = rand_fields(rn, 1850, 2100) if rn.random() < 0.8 else f
+            go({'kind': 'norm', 't': f, 'tz': spec})
+    # random cases right at the range edges
+    for rn, n in blocks('normalize-edge', 2000 * scale):
+        for i in range(n):
+            o = rand_fixed(rn)
+            edge = rn.choice([MIN_US, MAX_US])
+            e = rn.choice([-1, 0, 1, rn.randint(-US_DAY, US_DAY), rn.randint(-100, 100)])
+            f = from_us(edge + o['us'] + e)
+            if f is not None:
+                go({'kind': 'norm', 't': f, 'tz': o})
+    for ri, n in blocks('iso', 25000 * scale):
+        for i in range(n):
+            k = ri.randrange(10)
+            f = rand_fields(ri, 1, 9999) if ri.random() < 0.4 else rand_fields(ri)
+            if k <= 1:
+                spec = None
+            elif k == 2:
+                spec = {'k': 'utc', 'impl': ri.choice(UTC_IMPLS)}
+            elif k <= 7 or not zones:
+                spec = rand_fixed(ri, whole_minute=True)
+            else:
+                spec = {'k': 'zone', 'name': ri.choice(zones), 'fold': ri.randrange(2)}
+                if td_us(build(f, spec).utcoffset()) % US_MIN:
+                    spec = rand_fixed(ri, whole_minute=True)     # LMT with seconds: isoformat is not ISO 8601
+            go({'kind': 'iso', 't': f, 'tz': spec})
+    for rm, n in blocks('marshal', 15000 * scale):
+        for i in range(n):
+            f = rand_fields(rm, 1, 9999) if rm.random() < 0.4 else rand_fields(rm)
+            spec = None if rm.random() < 0.4 else {'k': 'utc', 'impl': rm.choice(UTC_IMPLS)}
+            case = {'kind': 'marshal', 't': f, 'tz': spec, 'leap': rm.random() < 0.3}
+            if spec is None and rm.random() < 0.25:
+                case['via'] = rm.choice(VIAS)
+            go(case)
+    for rc, n in blocks('clock', 6000 * scale):
+        for i in range(n):
+            now = rand_fields(rc, 1902, 2500) if rc.random() < 0.85 else rand_fields(rc, 2, 9998)
+            ops = []
+            for j in range(rc.randint(1, 5)):
+                k = rc.randrange(8)
+                if k == 0:
+                    ops.append(['seconds', rc.choice([0, 1, -1, 60, -60, 86400, 3600,
+                                                      rc.randint(-10 ** 7, 10 ** 7)])])
+                elif k == 1:
+                    ops.append(['seconds', rc.choice([0.5, -0.5, 0.25, 1.5, -1.5, 0.015625, 0.984375, -0.984375])])
+                elif k == 2:
+                    ops.append(['seconds', rc.randint(-64 * 10 ** 5, 64 * 10 ** 5) / 64])
+                elif k == 3:      # decimal fractions at microsecond resolution
+                    ops.append(['seconds', rc.randint(-10 ** 11, 10 ** 11) / 10 ** 6])
+                elif k == 4:
+                    ops.append(['seconds', rc.choice([0.000001, -0.000001, 0.999999, -0.999999, 0.1, -0.1,
+                                                      0.000002])])
+                elif k == 5:
+                    ops.append(['delta', 0, 0, rc.choice([1, -1, 999999, -999999,
+                                                          rc.randint(-10 ** 12, 10 ** 12)])])
+                elif k == 6:
+                    ops.append(['delta', rc.randint(-400, 400), rc.randint(0, 86399), rc.randrange(US)])
+                else:
+                    ops.append(['delta', 0, rc.randint(-10 ** 6, 10 ** 6), 0])
+            go({'kind': 'clock', 'now': now, 'via': rc.choice(VIAS), 'ops': ops})
+    for rp, n in blocks('compare', 16000 * scale):
+        for i in range(n):
+            f = rand_fields(rp) if rp.random() < 0.9 else rand_fields(rp, 40, 9900)
+            spec, forms = tz_for_compare(rp, zones, f)
+            s = rand_seconds(rp)
+            far = rp.choice([rp.randint(2, 10 ** 9), -rp.randint(2, 10 ** 9), rp.randint(2, 2000),
+                             -rp.randint(2, 2000)])
+            go({'kind': 'cmp', 't': f, 'tz': spec, 'form': rp.choice(forms), 'seconds': s,
+                'deltas': [-1, 0, 1, far], 'fns': allf, 'via': rp.choice(VIAS)})
     # very large second counts (millennia) around the middle of the range
-    for i in range(300 * scale):
-        f = rand_fields(rp, 4500, 5500)
-        spec, forms = tz_for_compare(rp, zones, f)
-        s = rp.choice([10 ** 11, -10 ** 11, 10 ** 11 + 0.5, rp.randint(-10 ** 11, 10 ** 11),
-                       float(rp.randint(-10 ** 11, 10 ** 11))])
-        emit({'kind': 'cmp', 't': f, 'tz': spec, 'form': rp.choice(forms), 'seconds': s,
-              'deltas': [-1, 0, 1], 'fns': allf, 'via': rp.choice(VIAS)})
+    for rp, n in blocks('compare-large', 250 * scale):
+        for i in range(n):
+            f = rand_fields(rp, 4500, 5500)
+            spec, forms = tz_for_compare(rp, zones, f)
+            s = rp.choice([10 ** 11, -10 ** 11, 10 ** 11 + 0.5, rp.randint(-10 ** 11, 10 ** 11),
+                           float(rp.randint(-10 ** 11, 10 ** 11))])
+            go({'kind': 'cmp', 't': f, 'tz': spec, 'form': rp.choice(forms), 'seconds': s,
+                'deltas': [-1, 0, 1], 'fns': allf, 'via': rp.choice(VIAS)})
 
 
 LEVEL_TEXT = ('Exploration with an exact oracle: expected values are computed in integer microseconds from the '
